@@ -1039,6 +1039,13 @@ func kahnsAlgorithmUsingAuthEvents(events []*stateResV2ConflictedPowerLevel) []*
 	inDegree := make(map[string]int, len(events))
 
 	for _, event := range events {
+		// An event that is listed more than once is only counted once: counting
+		// its dependencies again would leave its ancestors with an in-degree
+		// that never reaches zero.
+		if _, ok := eventMap[event.eventID]; ok {
+			continue
+		}
+
 		// For each event that we have been given, add it to the event map so that
 		// we can easily refer back to it by event ID later.
 		eventMap[event.eventID] = event
@@ -1125,6 +1132,13 @@ func kahnsAlgorithmUsingPrevEvents(events []*stateResV2ConflictedOther) []*state
 	inDegree := make(map[string]int, len(events))
 
 	for _, event := range events {
+		// An event that is listed more than once is only counted once: counting
+		// its dependencies again would leave its ancestors with an in-degree
+		// that never reaches zero.
+		if _, ok := eventMap[event.eventID]; ok {
+			continue
+		}
+
 		// For each event that we have been given, add it to the event map so that
 		// we can easily refer back to it by event ID later.
 		eventMap[event.eventID] = event
